@@ -230,7 +230,9 @@ def check_ops(res, rng):
         lo = rng.choice([0, 1, 4, 8])
         Cx = ('size', lo, lo + rng.choice([0, 1, 4]))
         base, ops = univ.BitString(), BIT_OPS
-        operands = ['', '1', '10', '1010', '10101010', '1' * 13]
+        # (bit strings with leading and with trailing zero bits among them: the integer behind a BIT STRING cannot
+        # carry leading zeros, the length has to)
+        operands = ['', '1', '0001', '10', '0010', '1010', '0', '10101010', '1' * 13, '00000001', '1000']
         view = lambda p: p
     try:
         typ = base.subtype(subtypeSpec=RC.to_pyasn1(Cx))
@@ -253,9 +255,9 @@ def check_ops(res, rng):
         if not RC.admits(Cx, pv):
             res.witness('construction:accepts-outside', feats0, ('c14-ctor', kind, Cx, v), '%s holds %r' % (RC.show(Cx), pv))
             starts.pop()
-    for x in starts[:4]:
+    for x in starts[:6]:
         for name, fn in ops:
-            for y in operands[:6]:
+            for y in operands[:7]:
                 case = ('c14-op', kind, Cx, repr(payload(x)), name, repr(y))
                 res.case(U.case_hash(case), True)
                 try:
